@@ -269,7 +269,94 @@ class Native:
             ran += 1
             if st == "fail":
                 return shown, d, ran
+            if "self" in kwargs and kwargs["self"] is not None and rng.random() < 0.2:
+                h = self.follow_ups(qualname, kwargs, shown, registry, rng, size)
+                ran += h[2]
+                if h[0] is not None:
+                    return h[0], h[1], ran
         return None, None, ran
+
+    def siblings(self, qualname, registry):
+        """the contracted methods of the same class that take a receiver"""
+        prefix = qualname.rsplit(".", 1)[0] + "."
+        out = []
+        for q in self.contracts:
+            if q.startswith(prefix) and "." not in q[len(prefix):].replace(".setter", ""):
+                try:
+                    so = self.param_sorts(q, registry)
+                except Exception:
+                    continue
+                if so and so[0][0] == "self" and not q.endswith("__init__"):
+                    out.append((q, so))
+        return sorted(out)
+
+    def follow_ups(self, qualname, kwargs, shown, registry, rng, size):
+        """histories: the receiver of a call that went well is used again - the same call repeated, then sibling
+        methods fed the arguments already used (same text, its length) - each step under its own runtime contract.
+        Returns (shown history or None, detail, evaluations)."""
+        sibs = self.siblings(qualname, registry)
+        if not sibs:
+            return None, None, 0
+        recv = kwargs["self"]
+        steps = [{"function": qualname, "args": {k: v for k, v in shown.items() if k != "self"}}]
+        pool = [(k, v) for k, v in kwargs.items() if k != "self"]
+        ran = 0
+        for _ in range(rng.randrange(1, 4)):
+            same = [x for x in sibs if x[0] == qualname]
+            q2, so2 = rng.choice(same) if same and rng.random() < 0.4 else rng.choice(sibs)
+            kw2 = {"self": recv}
+            for pname, sort in so2[1:]:
+                cands = [v for k, v in pool if k == pname and self.fits(v, sort)] or [v for k, v in pool if self.fits(v, sort)]
+                if pname in self.SMALL_NAMES:
+                    # sizes / indices stay small (a 4 GB padding is not an interesting history)
+                    cands = [v for v in cands if v is None or (isinstance(v, int) and -3 < v < 300)]
+                strs = [v for k, v in pool if isinstance(v, str)]
+                if pname == "length" and strs and sort in ("int", "nat", "Optional[int]") and rng.random() < 0.6:
+                    kw2[pname] = len(rng.choice(strs))
+                elif cands and rng.random() < 0.8:
+                    kw2[pname] = rng.choice(cands)
+                else:
+                    try:
+                        kw2[pname] = self.gen_param(pname, sort, rng, size)
+                    except KeyError:
+                        return None, None, ran
+            sh2 = {k: _show(v) for k, v in kw2.items() if k != "self"}
+            st, d = self.run_case(q2, kw2)
+            if st == "skip":
+                continue
+            ran += 1
+            steps.append({"function": q2, "args": sh2})
+            pool += [(k, v) for k, v in kw2.items() if k != "self"]
+            if st == "fail":
+                d = dict(d or {}, failing_step=len(steps) - 1, failing_function=q2)
+                return {"self": shown["self"], "__history__": steps}, d, ran
+        return None, None, ran
+
+    @staticmethod
+    def fits(v, sort):
+        if sort.startswith("Optional["):
+            return v is None or Native.fits(v, sort[9:-1])
+        if sort in ("int", "nat"):
+            return isinstance(v, int) and not isinstance(v, bool) and (sort == "int" or v >= 0)
+        if sort == "bool":
+            return isinstance(v, bool)
+        if sort == "str":
+            return isinstance(v, str)
+        if sort in ("bytes", "bytearray", "memoryview"):
+            return isinstance(v, {"bytes": bytes, "bytearray": bytearray, "memoryview": memoryview}[sort])
+        return False
+
+    def run_history(self, inputs):
+        """replay of a history found by follow_ups: every step on the one receiver, each under its contract"""
+        recv = unshow(inputs["self"])
+        last = ("ok", None)
+        for i, step in enumerate(inputs["__history__"]):
+            kw = {"self": recv}
+            kw.update({k: unshow(v) for k, v in step["args"].items()})
+            last = self.run_case(step["function"], kw)
+            if last[0] == "fail":
+                return "fail", dict(last[1] or {}, failing_step=i, failing_function=step["function"])
+        return "ok", None
 
     def run_lemma(self, qualname, kwargs):
         fn, props, kw = self.lemmas[qualname]
@@ -325,6 +412,8 @@ def _show(v):
         return v
     if isinstance(v, (list, tuple)):
         return [_show(x) for x in v]
+    if isinstance(v, dict):
+        return {"__dictitems__": [[_show(k), _show(x)] for k, x in v.items()]}
     if hasattr(v, "__dict__"):
         return {"__class__": type(v).__module__ + "." + type(v).__qualname__,
                 "fields": {k: _show(x) for k, x in v.__dict__.items()}}
@@ -337,6 +426,8 @@ def unshow(v):
         if v.get("memoryview"):
             return memoryview(b)
         return bytearray(b) if v.get("mutable") else b
+    if isinstance(v, dict) and "__dictitems__" in v:
+        return {(tuple(k) if isinstance(k, list) else unshow(k)): unshow(x) for k, x in v["__dictitems__"]}
     if isinstance(v, dict) and "__class__" in v:
         import importlib
         parts = v["__class__"].split(".")
